@@ -423,7 +423,24 @@ fn gen_registry(rng: &mut Rng) -> Case {
                 next_h += 1;
                 next_h
             };
-            match rng.below(14) {
+            match rng.below(15) {
+                // re-register / replace with a handle this client already holds (possibly the registered instance itself)
+                14 => {
+                    if !owned.is_empty() {
+                        let idx = rng.below(owned.len());
+                        let hh = owned.swap_remove(idx);
+                        if rng.chance(1, 2) {
+                            let (h2, h3) = (h(), h());
+                            ops.push(Op::Register { h: hh, h2, h3 });
+                            owned.push(h2);
+                            owned.push(h3);
+                        } else {
+                            let h3 = h();
+                            ops.push(Op::Replace { h: hh, h3 });
+                            owned.push(h3);
+                        }
+                    }
+                }
                 0 | 1 | 2 => {
                     let h2 = h();
                     ops.push(Op::FromRegistry { k, h2 });
